@@ -334,6 +334,25 @@ def _register():
                 return m[m.b > 2]
 
             C.PROGRAMS[f"jpsfx:{how}:{sfx[0] or 'none'}{sfx[1] or 'none'}"] = C.Prog(f"jpsfx:{how}:{sfx}", fn2, order_free=True, index_free=True, tags={"joinpred"})
+        if how == "leftsemi":
+            continue
+        # keys named differently on the two sides with ONE key in the index, filtered on the key of the other side: the
+        # filter can reach one input only, so it may move there only if the join cannot re-introduce that input's rows
+        # (the column/column forms are corpus programs merge_diffkeys_*; these stay here because the declared index
+        # name of such joins is an open known finding of C07 under other program names)
+
+        def fn_ri(t, how=how):
+            r = t.df2[["a", "w"]].set_index("a")
+            m = t.df[["a", "u"]].merge(r if t.lazy else r.sort_index(kind="stable"), left_on="a", right_index=True, how=how)
+            return m[m.a > 1]
+
+        def fn_li(t, how=how):
+            l = t.df[["a", "u"]].set_index("a")
+            m = (l if t.lazy else l.sort_index(kind="stable")).merge(t.df2[["a", "w"]].rename(columns={"a": "j"}), left_index=True, right_on="j", how=how)
+            return m[m.j > 1]
+
+        C.PROGRAMS[f"jpdk:{how}:right_index:left_key"] = C.Prog(f"jpdk:{how}:right_index:left_key", fn_ri, order_free=True, index_free=True, tags={"joinpred", "sort"})
+        C.PROGRAMS[f"jpdk:{how}:left_index:right_key"] = C.Prog(f"jpdk:{how}:left_index:right_key", fn_li, order_free=True, index_free=True, tags={"joinpred", "sort"})
 
 
 def run(run):
